@@ -29,17 +29,21 @@ Qed.
 Lemma row_of_lt names x i : row_of names x = Some i -> (i < length names)%nat.
 Proof. unfold row_of. destruct (mangled x); [discriminate|]. apply index_of_lt. Qed.
 
-Lemma stmt_rows_declared names eq y i k0 (e : sexpr) :
-  stmt_of_equation (row_of names) eq = Some (y, SAssign i k0 e) ->
+(* token level: whatever the tokens come from (a script statement or the code of a verbatim statement) *)
+Lemma tokens_rows_declared names ts y i k0 (e : sexpr) :
+  stmt_of_tokens (row_of names) ts = Some (y, SAssign i k0 e) ->
   (i < length names)%nat /\ forall x k, In (x, k) (expr_reads string e) -> (x < length names)%nat.
 Proof.
-  unfold stmt_of_equation. intros H.
-  destruct (stmt_of_tokens_reads _ _ _ _ _ _ H) as (Hy & st & _ & _ & Hr & Hset).
+  intros H. destruct (stmt_of_tokens_reads _ _ _ _ _ _ H) as (Hy & st & _ & _ & Hr & Hset).
   split; [eapply row_of_lt; exact Hy|]. intros x k Hin.
-  assert (Hs : In (Some (x, k)) (tok_reads (row_of names) (lex_items LNone (scan_items eq)))).
+  assert (Hs : In (Some (x, k)) (tok_reads (row_of names) ts)).
   { rewrite Hr. unfold somes. right. apply in_map. apply Hset. exact Hin. }
   destruct (tok_reads_rows _ _ _ _ Hs) as [nm Hn]. eapply row_of_lt; exact Hn.
 Qed.
+Lemma stmt_rows_declared names eq y i k0 (e : sexpr) :
+  stmt_of_equation (row_of names) eq = Some (y, SAssign i k0 e) ->
+  (i < length names)%nat /\ forall x k, In (x, k) (expr_reads string e) -> (x < length names)%nat.
+Proof. unfold stmt_of_equation. apply tokens_rows_declared. Qed.
 
 Lemma forall2_in_r' {A B} (R : A -> B -> Prop) l out b : Forall2 R l out -> In b out -> exists a, R a b.
 Proof.
@@ -55,17 +59,18 @@ Proof.
   destruct (parse_model_nocheck script) as [syms| |]; try discriminate.
   destruct (split_M script) as [stmts [e|]]; [discriminate|]. intros H.
   destruct (program_order _ _ _ _ H) as [_ HF].
-  assert (G : forall st, In st p -> exists n eq i k0 e,
-              stmt_of_equation (row_of names) eq = Some (n, st) /\ st = SAssign i k0 e).
-  { intros st Hin. destruct (forall2_in_r' _ _ _ _ HF Hin) as (s & n & eq & i & k0 & e & _ & _ & H1 & H2 & _).
-    exists n, eq, i, k0, e. split; assumption. }
+  assert (G : forall st, In st p -> exists ts n i k0 e,
+              stmt_of_tokens (row_of names) ts = Some (n, st) /\ st = SAssign i k0 e).
+  { intros st Hin. destruct (forall2_in_r' _ _ _ _ HF Hin) as (s & i & k0 & e & -> & [(n & eq & _ & _ & H1 & _)|(_ & c & y & _ & H1 & _)]).
+    - exists (lex_items LNone (scan_items eq)), n, i, k0, e. split; [exact H1|reflexivity].
+    - exists (lex_code (S (String.length c)) c), y, i, k0, e. split; [exact H1|reflexivity]. }
   intros x k Hin. unfold prog_terms in Hin. apply in_app_or in Hin as [Hin|Hin].
   - unfold prog_lhs in Hin. apply in_map_iff in Hin as (st & E & Hst).
-    destruct (G st Hst) as (n & eq & i & k0 & e & H1 & ->). cbn [stmt_lhs] in E. inversion E; subst.
-    apply (stmt_rows_declared _ _ _ _ _ _ H1).
+    destruct (G st Hst) as (ts & n & i & k0 & e & H1 & ->). cbn [stmt_lhs] in E. inversion E; subst.
+    apply (tokens_rows_declared _ _ _ _ _ _ H1).
   - unfold prog_reads in Hin. apply in_flat_map in Hin as (st & Hst & E).
-    destruct (G st Hst) as (n & eq & i & k0 & e & H1 & ->). cbn [stmt_reads] in E.
-    apply (proj2 (stmt_rows_declared _ _ _ _ _ _ H1) x k E).
+    destruct (G st Hst) as (ts & n & i & k0 & e & H1 & ->). cbn [stmt_reads] in E.
+    apply (proj2 (tokens_rows_declared _ _ _ _ _ _ H1) x k E).
 Qed.
 
 Section Feasible.
